@@ -428,9 +428,32 @@ pub fn run_batch(exe: &Path, prop: &str, tier: Tier, seed: u64, total: u64, work
         let case_line = text.lines().find(|l| l.starts_with("CASE "));
         let finished = text.lines().any(|l| l.starts_with("E "));
         if finished {
-            br.harness_errors.push(format!(
-                "worker died ({desc}) at run {r} of {prop} but the run completes when executed alone"
-            ));
+            // A memory-fault signal in a worker whose run then completes alone: the harness contains no unsafe code,
+            // so this is undefined behaviour in the library whose effect depends on heap state. Reported as a
+            // violation (with the recovered case), flagged as not reproducible in isolation.
+            let memory_fault = ["signal_11", "signal_7", "signal_4", "signal_6"].contains(&desc.as_str());
+            match (memory_fault, case_line.and_then(|l| serde_json::from_str::<Case>(&l[5..]).ok())) {
+                (true, Some(case)) => {
+                    br.viols.push((
+                        r,
+                        case,
+                        Violation {
+                            sig: Sig {
+                                property: prop.to_string(),
+                                family: "process".into(),
+                                op: "run".into(),
+                                class: format!("died:{desc}"),
+                                shape: "not_reproducible_in_isolation".into(),
+                            },
+                            detail: format!("the worker process died ({desc}) while executing run {r}; the same run completes when executed alone in a fresh process, i.e. the fault depends on heap state left by earlier runs (undefined behaviour in unchecked code)"),
+                        },
+                    ));
+                    br.digests.insert(r, 0xDEAD);
+                }
+                _ => br.harness_errors.push(format!(
+                    "worker died ({desc}) at run {r} of {prop} but the run completes when executed alone"
+                )),
+            }
             continue;
         }
         use std::os::unix::process::ExitStatusExt;
@@ -771,11 +794,11 @@ pub fn check_main(prop: &str, tier: Tier, extra: &dyn Fn(Tier, u64, u64, &BTreeM
         wall,
         digest_all
     );
-    if !harness_errors.is_empty() {
-        return 2;
-    }
     if !unknown.is_empty() {
         return 1;
+    }
+    if !harness_errors.is_empty() {
+        return 2;
     }
     0
 }
